@@ -117,6 +117,27 @@ func pollingEffects(c *core.Ctx, R string) {
 			c.Check(R, polOnData+"/413-after-cleanup", cl.Pos(), pre, "the slot is released (cleanup) before an oversized request is refused")
 		}
 		c.Need(R, "413 answers in onDataRequest", n413, 2)
+		// one response each: every exit of an admitted data request has set a status and written (mutation audit round 4:
+		// the 400 of a truncated body could be deleted, leaving net/http's implicit 200)
+		var sets, writes []core.Loc
+		for _, cl := range u.Calls() {
+			if cl.Name == "SetStatusCode" && !cl.Deferred {
+				sets = append(sets, cl.Loc)
+			}
+			if (cl.Key == "types.(*HttpContext).Write" || cl.Key == "io.WriteString" || cl.Key == "io.Copy") && !cl.Deferred {
+				writes = append(writes, cl.Loc)
+			}
+		}
+		nExit := 0
+		for _, r := range returnsIn(u) {
+			if !g.GuardedBy(r.Loc, won) {
+				continue // the refused overlap is answered by its own table
+			}
+			nExit++
+			c.Check(R, keyf("%s/exit#%d-has-set-a-status-and-written", polOnData, nExit), r.Stmt.Pos(), g.DominatesAny(sets, r.Loc) && g.DominatesAny(writes, r.Loc),
+				keyf("a SetStatusCode on every path to this return: %v; a Write: %v", g.DominatesAny(sets, r.Loc), g.DominatesAny(writes, r.Loc)))
+		}
+		c.Need(R, "exits of an admitted data request", nExit, 3)
 		if k := c.KidOf(R, u, "onClose"); k != nil {
 			requireEffects(c, R, k, []effect{
 				{name: "cleanup()", match: mLocalCall("cleanup")},
